@@ -7,6 +7,11 @@ import (
 
 // Simple helper that will take 2 or more integers, and apply an operation
 func arithmaticHelperi(equation func(int, int) int) KeyBuilderFunction {
+	return arithmaticHelperiChecked(func(a, b int) (int, bool) { return equation(a, b), true })
+}
+
+// Like arithmaticHelperi, but the operation can reject its operands (eg. division by zero), yielding ErrorValue
+func arithmaticHelperiChecked(equation func(int, int) (int, bool)) KeyBuilderFunction {
 	return KeyBuilderFunction(func(args []KeyBuilderStage) (KeyBuilderStage, error) {
 		if len(args) < 2 {
 			return stageErrArgRange(args, "2+")
@@ -28,7 +33,10 @@ func arithmaticHelperi(equation func(int, int) int) KeyBuilderFunction {
 				if !ok {
 					return ErrorNum
 				}
-				final = equation(final, val)
+				final, ok = equation(final, val)
+				if !ok {
+					return ErrorValue
+				}
 			}
 
 			return strconv.Itoa(final)
